@@ -74,7 +74,8 @@ def cases(tier, seed):
     for k in (1, 2, 3, 4):
         for assign in assignments(k, tier):
             for shp in shapes[k]:
-                for nanp in ("none", "point", "slice", "coord", "zero", "lone"):
+                for nanp in ("none", "point", "slice", "coord", "zero", "lone",
+                             "inf"):
                     if nanp == "coord" and shp[0] == 1:
                         continue  # (would leave a dataset without any data)
                     j += 1
@@ -121,6 +122,12 @@ def cases(tier, seed):
                    "method": meth, "style": style, "nan": nanp}
             yield {"mode": "aggregate", "agg": agg, "err": err,
                    "method": meth, "style": style, "nan": nanp, "two": True}
+    # ... of a dataset none of whose dimensions is mapped to anything (values
+    # not in order along the aggregated dimension)
+    for err, meth, nanp in itertools.product(
+            (0.5, "std"), ("median", "mean"), ("none", "point")):
+        yield {"mode": "aggregate", "agg": True, "err": err, "method": meth,
+               "style": None, "nan": nanp, "nomap": True}
     # histogram
     for bins, dens, mapped, nanp in itertools.product(
             (None, 4, "edges"), (True, False), (None, "color", "row"),
@@ -167,6 +174,10 @@ def make_ds(shape, ctypes, nanp, nan_dim=0):
             y[idx + (ix,)] = encode(ix, idx)
     if nanp == "point":
         y[(0,) * k + (1,)] = np.nan
+    elif nanp == "inf":
+        # an infinite value is a value: the line carries it (whether or not
+        # it can be shown), it is not a gap to be joined across
+        y[(0,) * k + (1,)] = np.inf
     elif nanp == "slice":
         y[(0,) * k] = np.nan
     elif nanp == "zero":
@@ -504,6 +515,40 @@ def check_agg(case):
     import numpy as np
 
     two = bool(case.get("two"))
+    if case.get("nomap"):
+        import xarray as xr
+
+        ds, dims = make_ds((3,), [0], case["nan"])
+        ds["y"] = ds["y"] + xr.DataArray([5.0, -2.0, 1.5], dims="d0")
+        before = ds.copy(deep=True)
+        vio = []
+
+        def key(sym):
+            return "C18|aggregate-unmapped|%s|%s|%s" % (
+                case["err"], case["method"], sym)
+
+        fig, axs, err = plot(key, ds, "x", "y", aggregate=True,
+                             aggregate_err_range=case["err"],
+                             aggregate_method=case["method"])
+        if err:
+            return fin(case, [err])
+        if not ds.identical(before):
+            vio.append((key("dataset-modified"), "plotting changed the "
+                        "dataset: y along d0 was %r, is %r" % (
+                            before["y"].values[:, 0].tolist(),
+                            ds["y"].values[:, 0].tolist())))
+        fn = np.nanmedian if case["method"] == "median" else np.nanmean
+        want = fn(before["y"].transpose("d0", "x").values, axis=0)
+        lines = [l for l in axs[0, 0].lines
+                 if not str(l.get_label()).startswith("_")] or \
+            list(axs[0, 0].lines)
+        got = [np.asarray(l.get_ydata(), float) for l in lines]
+        if not any(g.shape == want.shape and
+                   np.allclose(g, want, equal_nan=True) for g in got):
+            vio.append((key("central"), "no line carries the %s over d0 %r: "
+                        "lines %r" % (case["method"], want.tolist(),
+                                      [g.tolist() for g in got])))
+        return fin(case, vio, True)
     if two:
         # two aggregated dimensions (a median of medians is not the median
         # of the pooled values)
